@@ -318,3 +318,62 @@ example : ((runEvents {} (fun _ _ => true) {} [[71, 69, 84, 32, 47, 32, 72, 84],
     ∧ ({} : Cfg).response = false ∧ ({} : Cfg).lax = false := by
   decide +kernel
 end Aio.Http
+
+/-! ## chunk-size lines -/
+namespace Aio.Http
+open Aio
+
+theorem findByte_split (c : UInt8) (a : Bytes) (p : Nat) (h : findByte c a = some p) :
+    c ∉ a.take p ∧ (a.drop p).head? = some c := by
+  induction a generalizing p with
+  | nil => simp [findByte] at h
+  | cons x t ih =>
+    simp only [findByte] at h
+    split at h
+    · next hx => simp at h; subst h; simp [hx]
+    · next hx =>
+      simp at h; obtain ⟨q, hq, rfl⟩ := h
+      obtain ⟨h1, h2⟩ := ih q hq
+      refine ⟨?_, by simpa using h2⟩
+      simp only [List.take_succ_cons, List.mem_cons, not_or]
+      exact ⟨fun e => hx e.symm, h1⟩
+
+/-- **An accepted chunk-size line is strict** (strict mode): `1*HEXDIG`, optionally followed by
+a chunk extension that starts with `;` and contains no LF; the size is the value of the digits. -/
+theorem chunk_size_line_strict (cfg : Cfg) (hs : cfg.lax = false) (line : Bytes) (n : Nat)
+    (h : chunkSizeOf cfg line = some n) :
+    ∃ digits ext, line = digits ++ ext ∧ digits ≠ [] ∧ (∀ b ∈ digits, isHexB b = true) ∧
+      ofHex digits = some n ∧ (ext = [] ∨ (ext.head? = some 59 ∧ (10 : UInt8) ∉ ext)) := by
+  unfold chunkSizeOf at h
+  simp only [hs, Bool.false_eq_true, if_false] at h
+  cases hf : findByte 59 line with
+  | none =>
+    simp only [hf, Bool.false_eq_true, if_false] at h
+    by_cases hc : (line.isEmpty || !line.all isHexB) = true
+    · simp [hc] at h
+    · simp only [hc, if_false] at h
+      simp only [Bool.or_eq_true, not_or, Bool.not_eq_true', Bool.not_eq_eq_eq_not, Bool.not_true, Bool.not_eq_false] at hc
+      refine ⟨line, [], by simp, ?_, ?_, h, Or.inl rfl⟩
+      · intro e; subst e; simp at hc
+      · have := hc.2
+        simpa [List.all_eq_true] using this
+  | some i =>
+    simp only [hf] at h
+    obtain ⟨_, hhead⟩ := findByte_split 59 line i hf
+    by_cases hbad : ((line.drop i).any (· == 10)) = true
+    · simp [hbad] at h
+    · simp only [hbad, if_false] at h
+      by_cases hc : ((line.take i).isEmpty || !(line.take i).all isHexB) = true
+      · simp [hc] at h
+      · simp only [hc, if_false] at h
+        simp only [Bool.or_eq_true, not_or, Bool.not_eq_true', Bool.not_eq_eq_eq_not, Bool.not_true, Bool.not_eq_false] at hc
+        refine ⟨line.take i, line.drop i, by simp, ?_, ?_, h, Or.inr ⟨hhead, ?_⟩⟩
+        · intro e; rw [e] at hc; simp at hc
+        · have := hc.2
+          simpa [List.all_eq_true] using this
+        · intro hm
+          apply hbad
+          simp only [List.any_eq_true]
+          exact ⟨10, hm, by simp⟩
+
+end Aio.Http
